@@ -18,6 +18,7 @@ import itertools
 import inspect
 import os
 import pathlib
+import types
 import typing as t
 
 from typing_extensions import Self, TypeAlias
@@ -223,7 +224,7 @@ def make_converter(ty: IntoConverter, handlers: ConverterHandlers = ConverterHan
         return _annotated_converter(args[0], args[1:], handlers=handlers)
 
     # union converter
-    if base is t.Union:
+    if base is t.Union or base is getattr(types, 'UnionType', t.Union):
         return UnionConverter(args, handlers=handlers)
     # literal converter
     if base is t.Literal:
